@@ -29,6 +29,8 @@ echo "== existing suite with the change (must pass)"
 echo "pristine_exit=$pristine changed_exit=$changed suite_exit=$suite"
 echo "== property check on /repo with the change"
 git -C /repo apply "$seed/patch.diff" || exit 2
+cp /verif/evidence/$prop.json /tmp/evidence-$prop.bak 2>/dev/null
 (cd /verif && ./check "$prop" quick 2>&1 | tail -8)
+cp /tmp/evidence-$prop.bak /verif/evidence/$prop.json 2>/dev/null
 true
 git -C /repo checkout -q -- .
